@@ -177,7 +177,14 @@ type payloadVal struct {
 	Note string
 }
 
-const nPayloadKinds = 8
+// a payload whose dynamic type happens to implement error (e.g. a validation finding passed on as data)
+type payloadErrVal struct{ Tok int }
+
+func (p payloadErrVal) Error() string {
+	return fmt.Sprintf("finding %d (a value, not a failure)", p.Tok)
+}
+
+const nPayloadKinds = 9
 
 // typed nil pointers: they carry no data, so the token is recovered from the pointer TYPE
 // (the most recently created payload of that type; eight types are cycled through, and a
@@ -241,6 +248,7 @@ type Registry struct {
 	lastNil    [8]int // latest token whose payload is the typed nil pointer of type i
 	nilPtrTok  int    // token registered for the typed nil *payloadPtr (0: none)
 	NoTypedNil bool   // families whose tokens are not sequential keep to data-carrying payloads
+	RunCtxKind string // kind of the run's context (a callback's own context error must differ from it)
 }
 
 func NewRegistry() *Registry {
@@ -275,6 +283,8 @@ func (r *Registry) Payload(tok int) any {
 		v = fmt.Sprintf("tok:%d", tok)
 	case 6:
 		v = []int{tok, tok}
+	case 8:
+		v = payloadErrVal{Tok: tok}
 	case 7:
 		if r.NoTypedNil {
 			v = &payloadPtr{Tok: tok}
@@ -333,6 +343,8 @@ func (r *Registry) Observe(v any) (tok int, same bool) {
 			}
 		}
 	case payloadVal:
+		tok = x.Tok
+	case payloadErrVal:
 		tok = x.Tok
 	case int:
 		tok = x
@@ -395,7 +407,15 @@ func (r *Registry) Err(tok int) error {
 		return e
 	}
 	var e error
-	switch tok % 4 {
+	switch tok % 5 {
+	case 4:
+		// a failure of the callback's own making that wraps a context error although the run's context is live
+		// (a node-local timeout): it is an ordinary error of the callback
+		inner := error(context.DeadlineExceeded)
+		if r.RunCtxKind == "deadline" {
+			inner = context.Canceled // never the kind of error the run's own context will have
+		}
+		e = &wrapErr{msg: fmt.Sprintf("node-local timeout %d", tok), inner: inner}
 	case 3:
 		// several errors joined: each of them, and the joined value, must stay matchable
 		e = &joinedErr{err: errors.Join(errors.New(fmt.Sprintf("joined a %d", tok)), errors.New(fmt.Sprintf("joined b %d", tok)))}
@@ -419,6 +439,13 @@ func (j *joinedErr) parts() []error {
 		return u.Unwrap()
 	}
 	return nil
+}
+
+// SetErr registers a specific error value for token tok.
+func (r *Registry) SetErr(tok int, e error) {
+	r.mu.Lock()
+	r.errs[tok] = e
+	r.mu.Unlock()
 }
 
 type wrapErr struct {
@@ -486,13 +513,12 @@ func (r *Registry) MatchAll(err error) []int {
 }
 
 func isCtxErr(err error, ctx context.Context) bool {
+	// does the error match the error of THIS run's context? (a callback's own error may wrap some other context error)
 	if err == nil {
 		return false
 	}
-	if ce := ctx.Err(); ce != nil && errors.Is(err, ce) {
-		return true
-	}
-	return errors.Is(err, context.Canceled) || errors.Is(err, context.DeadlineExceeded)
+	ce := ctx.Err()
+	return ce != nil && errors.Is(err, ce)
 }
 
 // ---------------------------------------------------------------------------
